@@ -741,10 +741,18 @@ func genWCase(r *common.Rand, tier string) wCase {
 }
 
 func runShared(r *common.Rand, tier string, o *common.Out, replay string) {
+	if strings.HasPrefix(replay, "zipown|") {
+		p := strings.Split(replay, "|")
+		lv, _ := strconv.Atoi(p[1])
+		sz, _ := strconv.Atoi(p[2])
+		zipOwnCase(o, "replay", lv, sz)
+		return
+	}
 	if replay != "" {
 		wRunCase(o, "replay", decWCase(replay), r)
 		return
 	}
+	zipOwnProbe(o)
 	n := 0
 	// systematic part: a writer finishes (its buffer goes back to the pool), then two writers overlap and
 	// are released in reverse order - for every pair of writer kinds and both sides, on one P (the pool
@@ -825,4 +833,66 @@ func runShared(r *common.Rand, tier string, o *common.Out, replay string) {
 	}
 	_ = bufio.NewReader
 	_ = io.EOF
+}
+
+// zipText: n bytes of text whose redundancy is set by level (0: a few words repeated, 3: close to random letters)
+func zipText(level, n, salt int) []byte {
+	words := []int{12, 200, 3000, 60000}[level]
+	b := make([]byte, 0, n+16)
+	x := uint32(salt*2654435761 + 12345)
+	for len(b) < n {
+		x = x*1664525 + 1013904223
+		w := int(x>>8) % words
+		b = append(b, fmt.Sprintf("w%x-%d ", w*2654435761, w%97)...)
+	}
+	return b[:n]
+}
+
+// zipOwnCase: what the gzip compressor hands to an encoder is the encoder's own: it still holds the same bytes, and
+// still inflates to what was compressed, after the compressor has served others - whatever was compressed before
+// (level, size: the payload that went through the compressor just before; it decides what scratch space is lying
+// around).  On one P and without a collection in between, a scratch buffer that is handed out and also kept for the
+// next caller is the next caller's at once.
+func zipOwnCase(o *common.Out, id string, level, size int) {
+	line := fmt.Sprintf("zipown|%d|%d", level, size)
+	old := runtime.GOMAXPROCS(1)
+	defer runtime.GOMAXPROCS(old)
+	gz := protocol.Compressors[protocol.Gzip]
+	if _, err := gz.Zip(zipText(level, size, 1)); err != nil {
+		o.Fail(id, "rig", "zip failed: "+err.Error(), line)
+		return
+	}
+	var own, snap [][]byte
+	var src [][]byte
+	for i := 0; i < 4; i++ {
+		p := zipText(i%4, 1500+700*i, 10+i)
+		z, err := gz.Zip(p)
+		if err != nil {
+			o.Fail(id, "rig", "zip failed: "+err.Error(), line)
+			return
+		}
+		src, own, snap = append(src, p), append(own, z), append(snap, append([]byte(nil), z...))
+	}
+	for i := range own {
+		if !bytes.Equal(own[i], snap[i]) {
+			o.Fail(id, "frame-not-sent", fmt.Sprintf("compressed payload %d (%d bytes) changed under its encoder while the compressor served the next one (before it: %d bytes of level-%d text)", i, len(snap[i]), size, level), line)
+			return
+		}
+		if back, err := gz.Unzip(own[i]); err != nil || !bytes.Equal(back, src[i]) {
+			o.Fail(id, "frame-not-sent", fmt.Sprintf("compressed payload %d does not inflate to what was compressed (%v)", i, err), line)
+			return
+		}
+	}
+	o.ImplOnly(id, line, true)
+	o.Count("compressor-ownership")
+}
+
+func zipOwnProbe(o *common.Out) {
+	n := 0
+	for level := 0; level < 4; level++ {
+		for size := 600; size < 1500000; size = size*4/3 + 17 {
+			zipOwnCase(o, fmt.Sprintf("zipown%d", n), level, size)
+			n++
+		}
+	}
 }
